@@ -29,9 +29,8 @@ candidate the real code is left with the unspecified content of a dirty temporar
 bound; the model returns the infinite value with the kept OPEN bit there, and the driver does
 not compare the model with the library on that sub-case — the verdict on the real output is
 still taken.)  `Interval::wrap_assign` has the switch `d12` (`u > lower` as written, `u ≥ lower`
-when repaired).  `refine_universal` reads the argument's bound through `SCALAR_INFO`; for a
-`store_special` policy and an infinite argument bound the real code then reads the unspecified
-stored value — the model keeps the infinite value and the driver does not compare there either.
+when repaired).  `refine_universal` follows the repaired code (commits 2666657 and 17f6149);
+`refineUniversalNeBeforeFix` keeps the former `NOT_EQUAL` case as a witness.
 
 Contents: `ExtRat`, `Policy`, `Bound`, `Iv`, `Rounding` (exact / integer / binary floating point);
 `Boundary_NS` (`lt le eq`, `assign`, `complement`, `min/max_assign`, `neg/add/sub/mul/div_assign`,
@@ -544,28 +543,40 @@ def refineExistential (p : Policy) (R : Rounding) (to : Iv) (rel : Rel) (x : Iv)
       let to := if eq p .lower to.lo p .lower x.lo then removeInf p to else to
       if eq p .upper to.hi p .upper x.hi then removeSup p to else to
 
-/-- `refine_universal(rel, x)` -/
+/-- the `NOT_EQUAL` case of `refine_universal` before commit 17f6149 (KF-C12-5): only end points that
+coincide with those of `x` are opened -/
+def refineUniversalNeBeforeFix (p : Policy) (to x : Iv) : Iv :=
+  if checkEmptyArg p x then to
+  else if checkEmptyArg p to then to
+  else
+    let to := if eq p .lower to.lo p .lower x.lo then removeInf p to else to
+    if eq p .upper to.hi p .upper x.hi then removeSup p to else to
+
+/-- `refine_universal(rel, x)` (as repaired: an argument bound that is a SPECIAL infinity gives the
+empty interval in the four order cases; `NOT_EQUAL` is `difference_assign(x)`) -/
 def refineUniversal (p : Policy) (R : Rounding) (to : Iv) (rel : Rel) (x : Iv) : Iv :=
   if checkEmptyArg p x then to
   else match rel with
   | .lt =>
     if lt p .upper to.hi p .lower x.lo then to
+    else if getSpecial p .lower x.lo then Iv.empty
     else ⟨to.lo, bAssign p R .upper Policy.scalar .lower x.lo (!isOpen p .lower x.lo)⟩
   | .le =>
     if le p .upper to.hi p .lower x.lo then to
+    else if getSpecial p .lower x.lo then Iv.empty
     else ⟨to.lo, bAssign p R .upper Policy.scalar .lower x.lo⟩
   | .gt =>
     if gt p .lower to.lo p .upper x.hi then to
+    else if getSpecial p .upper x.hi then Iv.empty
     else ⟨bAssign p R .lower Policy.scalar .upper x.hi (!isOpen p .upper x.hi), to.hi⟩
   | .ge =>
     if ge p .lower to.lo p .upper x.hi then to
+    else if getSpecial p .upper x.hi then Iv.empty
     else ⟨bAssign p R .lower Policy.scalar .upper x.hi, to.hi⟩
   | .eq => if !isSingleton p x then Iv.empty else intersectAssign p R to x
   | .ne =>
     if checkEmptyArg p to then to
-    else
-      let to := if eq p .lower to.lo p .lower x.lo then removeInf p to else to
-      if eq p .upper to.hi p .upper x.hi then removeSup p to else to
+    else differenceAssign p R to x
 
 /-- `neg_assign` -/
 def negAssign (p : Policy) (R : Rounding) (x : Iv) : Iv :=
